@@ -5,7 +5,7 @@ let rec pos_of_int i = if i = 1 then XH else if i land 1 = 0 then XO (pos_of_int
 let z_of_int i = if i = 0 then Z0 else if i > 0 then Zpos (pos_of_int i) else Zneg (pos_of_int (-i))
 let rec int_of_pos = function XH -> 1 | XO p -> 2 * int_of_pos p | XI p -> 2 * int_of_pos p + 1
 let int_of_z = function Z0 -> 0 | Zpos p -> int_of_pos p | Zneg p -> - (int_of_pos p)
-let parse (s:string) : sexp =
+let parse (s:Stdlib.String.t) : sexp =   (* not `string`: an extracted model may define its own type of that name *)
   let n = String.length s in let i = ref 0 in
   let skip () = while !i < n && s.[!i] = ' ' do incr i done in
   let rec item () : sexp =
